@@ -56,6 +56,7 @@ type Contract struct {
 	ParamNames []string // functype: names of the positional parameters
 	IsFuncType bool
 	Sig        string // functype over an unnamed signature: its Go type expression
+	Preserves  []string
 }
 
 // hasCallSpec: the contract says something a static caller can use (otherwise the body is
@@ -313,6 +314,13 @@ func (lib *SpecLib) loadContractFile(path, pkgPath string) error {
 				default:
 					return fail(fmt.Errorf("unknown loop clause %q", sub))
 				}
+			case "preserves":
+				// preserves T1, T2: with `modifies everything`, field heaps of these struct types keep their values
+				for _, part := range splitTopLevel(rest, ',') {
+					cur.Preserves = append(cur.Preserves, strings.TrimSpace(part))
+				}
+				lib.Scans = append(lib.Scans, fmt.Sprintf("preserves (ownership assumption) in %s (%s:%d): %s", cur.Key, filepath.Base(path), it.line, rest))
+				continue
 			case "requires", "ensures", "modifies", "assume", "label", "captures":
 			default:
 				return fail(fmt.Errorf("unknown clause %q", kw))
@@ -348,7 +356,7 @@ func (lib *SpecLib) loadContractFile(path, pkgPath string) error {
 	return nil
 }
 
-var clauseKeywords = map[string]bool{"functype": true, "label": true, "captures": true, "func": true, "pred": true, "specfunc": true, "axiom": true, "lemma": true,
+var clauseKeywords = map[string]bool{"preserves": true, "functype": true, "label": true, "captures": true, "func": true, "pred": true, "specfunc": true, "axiom": true, "lemma": true,
 	"requires": true, "ensures": true, "modifies": true, "loop": true, "floats": true, "may_panic": true,
 	"inline": true, "trusted": true, "pure": true, "property": true, "assume": true, "nosafety": true}
 
